@@ -425,7 +425,8 @@ func ruleErrChain(c *Ctx) {
 			fn := testH
 			ei := errResultIndex(fn)
 			lookup := map[ssa.Value]bool{}
-			var getErr ssa.Value
+			var getErr, helperErr ssa.Value
+			var helperFn *ssa.Function
 			allInstrs(fn, func(i ssa.Instruction) {
 				ci, ok := i.(ssa.CallInstruction)
 				if !ok || ci.Value() == nil {
@@ -445,6 +446,12 @@ func ruleErrChain(c *Ctx) {
 					for _, e := range errResultOf(ci) {
 						lookup[e] = true
 						getErr = e
+					}
+				case isLookupHelper(com.StaticCallee()):
+					for _, e := range errResultOf(ci) {
+						lookup[e] = true
+						helperErr = e
+						helperFn = com.StaticCallee()
 					}
 				}
 			})
@@ -493,7 +500,16 @@ func ruleErrChain(c *Ctx) {
 			pdGet := b.method(b.Lib, "partialDoc", "get")
 			if pdGet != nil && a.sum[pdGet]["S:ErrMissing"] {
 				key := "TEST-ABSENT: a test against an absent member reaches the comparison"
-				if getErr == nil {
+				if getErr == nil && helperErr != nil {
+					// the lookup goes through a helper that also reports an unreachable parent: its error
+					// and the member lookup's are both one %w around ErrMissing, so the handler cannot
+					// forgive the one (absent member compares as null) without forgiving the other
+					if a.sum[helperFn]["S:ErrMissing"] {
+						l.add("R-ERRCHAIN", b.Name, key, b.rel(fn.Pos()), Violated, "the test handler takes the looked-up value from "+fname(helperFn)+", whose own \"parent cannot be reached\" error wraps ErrMissing exactly like the member lookup's \"absent member\" error: the tolerance for an absent member also lets a test below an unreachable parent pass (value null) or fail as a comparison", true)
+					} else {
+						l.add("R-ERRCHAIN", b.Name, key, b.rel(fn.Pos()), Undecided, "lookup through "+fname(helperFn)+": not decided", false)
+					}
+				} else if getErr == nil {
 					l.add("R-ERRCHAIN", b.Name, key, b.rel(fn.Pos()), Undecided, "container.get call not found in the test handler", false)
 				} else {
 					ok, why := b.testAbsentExcluded(fn, getErr, ei)
@@ -551,6 +567,46 @@ func ruleErrChain(c *Ctx) {
 					l.add("R-ERRCHAIN", b.Name, key, b.posOf(ci), Violated, "the container returned by findObject is used without a nil test", true)
 				}
 			})
+			// locations resolved inside a lookup helper the handler calls
+			for _, hc := range callsTo(h, func(cc *ssa.CallCommon) bool { return isLookupHelper(cc.StaticCallee()) }) {
+				hf := hc.Common().StaticCallee()
+				for _, fc := range callsTo(hf, func(cc *ssa.CallCommon) bool { return b.isFindObjectCall(cc) }) {
+					n++
+					key := fmt.Sprintf("MISSING-parent: handler %q, findObject #%d (in %s) yielding no container -> ErrMissing", k, n, fname(hf))
+					okH := false
+					for _, ex := range extractOf(fc.Value(), 0) {
+						for _, t := range nilTests(hf, ex) {
+							errs, _ := errReturnsUnderEdge(hf, t.Blk, 1-t.NonNilSucc)
+							all := len(errs) > 0
+							for _, r := range errs {
+								if !directlyWrapsSentinel(retVal(r, errResultIndex(hf)), "ErrMissing") {
+									all = false
+								}
+							}
+							// and the handler passes the helper's error on
+							passes := false
+							for _, e := range errResultOf(hc) {
+								for _, t2 := range errChecks(e) {
+									es, _ := errReturnsUnderEdge(h, t2.Blk, t2.NonNilSucc)
+									for _, r := range es {
+										if wrapsValue(retVal(r, ei), e) {
+											passes = true
+										}
+									}
+								}
+							}
+							if all && passes {
+								okH = true
+							}
+						}
+					}
+					if okH {
+						l.add("R-ERRCHAIN", b.Name, key, b.posOf(fc), Discharged, "the helper returns an error wrapping ErrMissing on its nil-container edge and the handler wraps (%w) the helper's error", true)
+					} else {
+						l.add("R-ERRCHAIN", b.Name, key, b.posOf(fc), Violated, "the helper's nil-container edge does not yield ErrMissing, or the handler does not pass the helper's error on with %w", true)
+					}
+				}
+			}
 			if n == 0 {
 				l.add("R-ERRCHAIN", b.Name, fmt.Sprintf("MISSING-parent: handler %q resolves its location with findObject", k), b.rel(h.Pos()), Undecided, "no findObject call in the handler", false)
 			}
